@@ -2,6 +2,7 @@
 what the property demands; see tools/harness/props/c07.py for the wire formats. -/
 import PdfVerif.Spec.CIDFont
 import PdfVerif.Model.TrueTypeCmap
+import PdfVerif.Model.CMapLex
 
 open PdfVerif PdfVerif.CIDFont PdfVerif.CIDFontSpec
 
@@ -196,6 +197,22 @@ def step (st : DState) (line : String) : DState × String :=
     (st, match bytesOfHex h with
       | some b => let cs := utf16Ignore b; "U " ++ (if cs.isEmpty then "-" else ".".intercalate (cs.map hexNat))
       | none => "bad-op")
+  | ["tub", h] =>
+    (st, match (if h == "-" then some [] else bytesOfHex h) with
+      | some data => match parseToUnicodeBytes data with
+        | some (.ok m) => showUMap m
+        | some (.error e) => showErr e
+        | none => "outside"
+      | none => "bad-op")
+  | "tuni" :: cid :: ws =>
+    -- PDFCIDFont.to_unichr(cid) of a font whose ToUnicode stream holds these tokens
+    (st, match cid.toNat?, ws.mapM parseTok with
+      | some cid, some toks => match parseToUnicode toks with
+        | .ok m => (match toUnichr m cid with
+          | some u => "U " ++ (if u.isEmpty then "-" else ".".intercalate (u.map (fun c => String.ofList (Nat.toDigits 16 c))))
+          | none => "U undefined")
+        | .error e => showErr e
+      | _, _ => "bad-op")
   | "tu" :: ws =>
     (st, match ws.mapM parseTok with
       | some toks => match parseToUnicode toks with
@@ -237,6 +254,19 @@ def step (st : DState) (line : String) : DState × String :=
       | some es => showW2Map ((specWidth2Pairs es).reverse.map
           (fun e => ((e.1 : Rat), (WVal.num e.2.1, WVal.num e.2.2.1, WVal.num e.2.2.2))))
       | none => "bad-op")
+  | ["umapsel2", tu, reg, ord, enc, ttf, vert, shipped] =>
+    let str (h : String) : Option String := (bytesOfHex h).map (fun b => String.ofList (b.map (fun c => Char.ofNat c.toNat)))
+    let ob (h : String) : Option (Option Bytes) := if h == "-" then some none else (bytesOfHex h).map some
+    (st, match (if tu == "s" then some ToUni.stream else if tu == "-" then some ToUni.absent
+                else (str ((tu.drop 2).toString)).map ToUni.name), ob reg, ob ord, str enc with
+      | some tu, some reg, some ord, some enc =>
+        match fontUnicodeMap tu reg ord enc (ttf == "1") (vert == "1") (shipped == "1") with
+        | .file => "S file"
+        | .identity => "S identity"
+        | .ttf => "S ttf"
+        | .none => "S none"
+        | .collection c v => "S coll:" ++ c ++ ":" ++ (if v then "V" else "H")
+      | _, _, _, _ => "bad-op")
   | ["umapsel", tu, ord, coding, enc, ttf, vert, shipped] =>
     let str (h : String) : Option String := (bytesOfHex h).map (fun b => String.ofList (b.map (fun c => Char.ofNat c.toNat)))
     (st, match (if tu == "s" then some ToUni.stream else if tu == "-" then some ToUni.absent
@@ -281,6 +311,30 @@ def step (st : DState) (line : String) : DState × String :=
           "D " ++ (match d.1 with | some vx => ratToString vx | none => "None") ++ " " ++ ratToString d.2
         | .error e => showErr e
       | _, _, _ => "bad-op")
+  | "cw" :: v :: dw :: dw2 :: cid :: ws =>
+    -- PDFCIDFont glue: `cw <0|1> <DW word|-> <DW2 list word|-> <cid> <W elems> | <W2 elems>`
+    let w1 := ws.takeWhile (· != "|")
+    let w2 := (ws.dropWhile (· != "|")).drop 1
+    let dwv : Option (Option WVal) := if dw == "-" then some none else (parseWVal dw).map some
+    let dw2v : Option (Option (List WVal)) := if dw2 == "-" then some none else
+      match parseWElem dw2 with
+      | some (.list xs) => some (some xs)
+      | _ => none
+    (st, match dwv, dw2v, cid.toNat?, parseWElems w1, parseWElems w2 with
+      | some dwv, some dw2v, some cid, some w1, some w2 =>
+        let a := match cidCharWidth (v == "1") w1 dwv w2 dw2v cid with
+          | .ok r => "R " ++ ratToString r
+          | .error e => showErr e
+        let b := match cidCharDisp (v == "1") w2 dw2v cid with
+          | .ok .zero => "D 0"
+          | .ok (.vec vx vy) => "D " ++ (match vx with | some x => ratToString x | none => "None") ++ " " ++ ratToString vy
+          | .error e => showErr e
+        a ++ " " ++ b
+      | _, _, _, _, _ => "bad-op")
+  | ["coding", r, o] =>
+    (st, match (if r == "-" then some none else (bytesOfHex r).map some), (if o == "-" then some none else (bytesOfHex o).map some) with
+      | some r, some o => "K " ++ hexOfBytes (cidCoding r o)
+      | _, _ => "bad-op")
   | _ => (st, "bad-op")
 
 partial def loop (h : IO.FS.Stream) (out : IO.FS.Stream) (st : DState) : IO Unit := do
